@@ -36,6 +36,26 @@ theorem StatKept.trans {s s1 s2 : St} (h1 : StatKept s s1) (h2 : StatKept s1 s2)
   obtain ⟨m2, r2, rest2, hm2, hr2, hd2, hw2⟩ := h2 p' m1 r1 rest1 hm1 hr1
   exact ⟨m2, r2, rest2, hm2, hr2, by rw [hd2, hd1], fun h => hw2 (hw1 h)⟩
 
+/-- a visible node without its `user.x` xattr (which copy-up does not copy: known finding) -/
+def VNode.dropX : VNode → VNode
+  | .file m c _ => .file m c 0
+  | .dir m _ => .dir m 0
+  | v => v
+
+/-- the upper entry at `p` afterwards shows what the node's first real inode showed before, up to
+    the xattr -/
+def ImgKept (p : Path) (s s' : St) : Prop := ∀ m0 r0 rest0, s.mem p = some m0 → m0.reals = r0 :: rest0 →
+  m0.whiteout = false → (s'.disk.nodeAt 0 p).view.dropX = (s.disk.statReal r0).view.dropX
+
+theorem ImgKept.refl {s : St} (hc : Consistent s) {p : Path} {m : MNode} (hm : s.mem p = some m)
+    (hmu : m.inUpper = true) : ImgKept p s s := by
+  intro m0 r0 rest0 hm0 hr0 _
+  rw [hm] at hm0; cases hm0
+  have hsh := reals_shape hc hm r0 (by simp [hr0])
+  have hu : r0.inUpper = true := by simpa [MNode.inUpper, hr0] using hmu
+  have hl : r0.layer = 0 := by have := hsh.2.1; rw [hu] at this; simpa using this.symm
+  simp [Disk.statReal, hl, hsh.1]
+
 /-- what `create_upper_dir(p)` guarantees when it succeeds from `s` -/
 structure CUD (p : Path) (s s' : St) : Prop where
   cons : Consistent s'
@@ -45,6 +65,7 @@ structure CUD (p : Path) (s s' : St) : Prop where
   frame : ∀ p', ¬ p'.isSuffixOf p → s'.mem p' = s.mem p'
   keep : ∀ p' m0, s.mem p' = some m0 → ∃ m1, s'.mem p' = some m1 ∧ m1.loaded = m0.loaded ∧ m1.kids = m0.kids
   stat : StatKept s s'
+  img : ImgKept p s s'
 
 /-- on failure -/
 structure CUDE (s s' : St) : Prop where
@@ -76,7 +97,7 @@ theorem cudStep_spec {s : St} (hc : Consistent s) (hu : s.disk.upper.isSome) (n 
     {pm m : MNode} (hpm : s.mem pp = some pm) (hm : s.mem (n :: pp) = some m)
     (hpu : pm.inUpper = true) (hmu : m.inUpper = false)
     {r : Real} {rest : List Real} (hr : m.reals = r :: rest) (hdir : (s.disk.statReal r).isDir = true)
-    (mode : Nat) :
+    (mode : Nat) (hmode : mode = (s.disk.statReal r).mode) :
     ∃ s', cudStep n pp mode s = .ok () s' ∧ CUD (n :: pp) s s' ∧
       (∀ p', p' ≠ n :: pp → s'.mem p' = s.mem p') := by
   obtain ⟨L, hup⟩ : ∃ L, s.disk.upper = some L := by
@@ -98,7 +119,7 @@ theorem cudStep_spec {s : St} (hc : Consistent s) (hu : s.disk.upper.isSome) (n 
     simp [childReal, realOf, nodeAt_setUpper _ _ _ hu, Node.isWhiteout, Node.isOpaqueDir]
   have hcons := upperDir_consistent hc hup n pp hpm hm hpu hmu hr hdir mode
     (s.log ++ [⟨0, Method.mkdir⟩])
-  refine ⟨_, ?_, ⟨hcons, ?_, ?_, ?_, ?_, ?_, ?_⟩, ?_⟩
+  refine ⟨_, ?_, ⟨hcons, ?_, ?_, ?_, ?_, ?_, ?_, ?_⟩, ?_⟩
   · have hq : realOf (s.disk.setUpper (n :: pp) (.dir mode 0 0)) (n :: pp) 0 =
         { layer := 0, inUpper := true, path := n :: pp, whiteout := false, opq := false } := by
       simp [realOf, nodeAt_setUpper _ _ _ hu, Node.isWhiteout, Node.isOpaqueDir]
@@ -140,6 +161,12 @@ theorem cudStep_spec {s : St} (hc : Consistent s) (hu : s.disk.upper.isSome) (n 
       · intro h
         show ((s.disk.setUpper (n :: pp) (.dir mode 0 0)).nodeAt r0.layer r0.path).isWhiteout = false
         rw [nodeAt_setUpper_ne _ _ _ hu _ _ (fun h => hp' (hrp ▸ h.2))]; exact h
+  · intro m0 r0 rest0 hm0 hr0 _
+    rw [hm] at hm0; cases hm0
+    rw [hr] at hr0; cases hr0
+    show ((s.disk.setUpper (n :: pp) (.dir mode 0 0)).nodeAt 0 (n :: pp)).view.dropX = _
+    rw [nodeAt_setUpper _ _ _ hu, hmode]
+    cases hx : s.disk.statReal r <;> simp_all [Node.isDir, Node.view, VNode.dropX, Node.mode]
   · intro p' hp'
     simp [Mem.set, hp']
 
@@ -186,7 +213,8 @@ theorem createUpperDir_spec : ∀ (p : Path) (s : St), Consistent s → s.disk.u
       by_cases hd : (s.disk.statReal r).isDir = true
       · by_cases hmu : m.inUpper = true
         · simp [Outcome, bind, M.bind, getNode, hm, hst, hd, hmu, pure, M.pure]
-          exact ⟨hc, ⟨m, hm, hmu⟩, rfl, hu, fun _ _ => rfl, fun p' m0 h => ⟨m0, h, rfl, rfl⟩, StatKept.refl s⟩
+          exact ⟨hc, ⟨m, hm, hmu⟩, rfl, hu, fun _ _ => rfl, fun p' m0 h => ⟨m0, h, rfl, rfl⟩, StatKept.refl s,
+            ImgKept.refl hc hm hmu⟩
         · simp [Outcome, bind, M.bind, getNode, hm, hst, hd, hmu, fail]
           exact ⟨hc, rfl, hu⟩
       · simp [Outcome, bind, M.bind, getNode, hm, hst, hd, fail]
@@ -209,7 +237,8 @@ theorem createUpperDir_spec : ∀ (p : Path) (s : St), Consistent s → s.disk.u
         by_cases hd : (s.disk.statReal r).isDir = true
         · by_cases hmu : m.inUpper = true
           · simp [Outcome, bind, M.bind, getNode, hm, hst, hd, hmu, pure, M.pure]
-            exact ⟨hc, ⟨m, hm, hmu⟩, rfl, hu, fun _ _ => rfl, fun p' m0 h => ⟨m0, h, rfl, rfl⟩, StatKept.refl s⟩
+            exact ⟨hc, ⟨m, hm, hmu⟩, rfl, hu, fun _ _ => rfl, fun p' m0 h => ⟨m0, h, rfl, rfl⟩, StatKept.refl s,
+            ImgKept.refl hc hm hmu⟩
           · simp only [Bool.not_eq_true] at hmu
             obtain ⟨pm, hpm, _⟩ := hc.reach n pp m hm
             have hrl := real_lower hc hm hr hmu
@@ -242,13 +271,21 @@ theorem createUpperDir_spec : ∀ (p : Path) (s : St), Consistent s → s.disk.u
               have hdir1 : (s1.disk.statReal r).isDir = true := by
                 simp only [Disk.statReal] at hd ⊢
                 rw [nodeAt_of_lowers hlow hrl]; exact hd
+              have hst1 : s1.disk.statReal r = s.disk.statReal r := by
+                simp only [Disk.statReal]; exact nodeAt_of_lowers hlow hrl _
               obtain ⟨s2, hs2, hcud, hfr⟩ := cudStep_spec hc1 hu1 n pp hpm1 hm1 hpu1 hmu hr hdir1 (s.disk.statReal r).mode
+                (by rw [hst1])
               rw [hs2]
               have hstat1 : StatKept s s1 := by
                 rcases h1 with h | ⟨h, _⟩
                 · exact h.stat
                 · rw [h]; exact StatKept.refl s
-              refine ⟨hcud.cons, hcud.up, by rw [hcud.lowers, hlow], hcud.upper, ?_, ?_, hstat1.trans hcud.stat⟩
+              refine ⟨hcud.cons, hcud.up, by rw [hcud.lowers, hlow], hcud.upper, ?_, ?_, hstat1.trans hcud.stat, ?_⟩
+              rotate_left 2
+              · intro m0 r0 rest0 hm0 hr0 hw0
+                rw [hm] at hm0; cases hm0
+                rw [hr] at hr0; cases hr0
+                rw [hcud.img m r rest hm1 hr hw0, hst1]
               · intro p' hp'
                 have hne : p' ≠ n :: pp := by
                   intro h; subst h; simp at hp'
@@ -405,10 +442,20 @@ theorem copyFileUp_spec {s : St} (hc : Consistent s) (hu : s.disk.upper.isSome) 
     have hupAt : (addUpperNode m (childReal pr n) true).inUpper = true := by
       simp [addUpperNode, MNode.inUpper, childReal]
     -- what remains to be shown about the final state, from its disk and forest
+    have hwst : m.whiteout = false → (s.disk.statReal r).isWhiteout = false := by
+      intro hmw
+      have hw := hc.wh _ m hm
+      have hsh := reals_shape hc hm r (by simp [hr])
+      rw [hmw, hr] at hw
+      simp only [headWhiteout] at hw
+      have : s.disk.statReal r = s.disk.nodeAt r.layer (n :: pp) := by simp [Disk.statReal, hsh.1]
+      rw [this, ← hsh.2.2]; exact hw.symm
+    have hpres : (s.disk.statReal r).isAbsent = false := head_present hc hm hr
     have finish : ∀ s3 : St, (∃ L3, s3.disk = s2.disk.setLayer 0 L3 ∧
-          ((∀ p, sameShape (L3 p) ((L.set (n :: pp) X) p)) ∧ HostStep (L.set (n :: pp) X) L3)) →
+          ((∀ p, sameShape (L3 p) ((L.set (n :: pp) X) p)) ∧ HostStep (L.set (n :: pp) X) L3) ∧
+          (m.whiteout = false → (L3 (n :: pp)).view.dropX = (s.disk.statReal r).view.dropX)) →
         s3.mem = s2.mem.set (n :: pp) (some (addUpperNode m (childReal pr n) true)) → CUD (n :: pp) s s3 := by
-      intro s3 ⟨L3, hd3, hsh, hstp⟩ hm3
+      intro s3 ⟨L3, hd3, ⟨hsh, hstp⟩, himg⟩ hm3
       have hfinal := consistent_sameShape hA (L := L.set (n :: pp) X) (L' := L3)
         (by simp [Disk.setUpper, hup, Disk.setLayer]) hsh hstp []
       have hstat1 : StatKept s s1 := by
@@ -445,7 +492,13 @@ theorem copyFileUp_spec {s : St} (hc : Consistent s) (hu : s.disk.upper.isSome) 
           refine ⟨m0, r0, rest0, by rw [hm3, hmem2]; simp [Mem.set, hp', hm0], hr0, ?_, fun h => ?_⟩
           · simp only [Disk.statReal, hrp]; exact hsame.2.2.1
           · simp only [Disk.statReal, hrp] at h ⊢; rw [hsame.2.1]; exact h
-      refine ⟨hfinal.congr ?_ ?_, ?_, ?_, ?_, ?_, ?_, hstat1.trans hstat3⟩
+      refine ⟨hfinal.congr ?_ ?_, ?_, ?_, ?_, ?_, ?_, hstat1.trans hstat3, ?_⟩
+      rotate_right 1
+      · intro m0 r0 rest0 hm0 hr0 hw0
+        rw [hm] at hm0; cases hm0
+        rw [hr] at hr0; cases hr0
+        rw [hd3, nodeAt_setLayer0, if_pos rfl]
+        exact himg hw0
       · rw [hd3, hdisk2]
       · rw [hm3, hmem2, hnodeEq]
       · exact ⟨_, by rw [hm3]; simp [Mem.set], hupAt⟩
@@ -473,14 +526,18 @@ theorem copyFileUp_spec {s : St} (hc : Consistent s) (hu : s.disk.upper.isSome) 
     have hm2q : s2.mem (n :: pp) = some m := by rw [hmem2]; exact hm1
     -- no content to copy: the upper layer is as `mkNode` left it
     have nocontent : copyContent (s.disk.statReal r) (childReal pr n) = pure () →
+        (m.whiteout = false → X.view.dropX = (s.disk.statReal r).view.dropX) →
         Outcome ((copyContent (s.disk.statReal r) (childReal pr n) >>= fun _ =>
           addUpperInode (n :: pp) (childReal pr n) true) s2) (fun _ s' => CUD (n :: pp) s s') (fun s' => CUDE s s') := by
-      intro hcc
+      intro hcc hXimg
       rw [hcc, bind_ok (pure_eval () s2)]
       obtain ⟨s3, hadd, hd3, hm3⟩ := addUpperInode_ok' (childReal pr n) true hm2q
       rw [hadd]
-      refine finish s3 ⟨L.set (n :: pp) X, ?_, fun _ => sameShape_refl _, hostStep_refl _⟩ hm3
-      rw [hd3, hdisk2]; simp [Disk.setUpper, hup, Disk.setLayer]
+      refine finish s3 ⟨L.set (n :: pp) X, ?_, ⟨fun _ => sameShape_refl _, hostStep_refl _⟩, ?_⟩ hm3
+      · rw [hd3, hdisk2]; simp [Disk.setUpper, hup, Disk.setLayer]
+      · intro hmw
+        simp only [Layer.set, if_true]
+        exact hXimg hmw
     cases hstk : s.disk.statReal r with
     | file fid fmode fc fx =>
       have hXf : X = .file s1.nextId fmode [] 0 := by rw [← hX, hstk]; rfl
@@ -491,12 +548,18 @@ theorem copyFileUp_spec {s : St} (hc : Consistent s) (hu : s.disk.upper.isSome) 
       rw [bind_ok hw3]
       obtain ⟨s4, hadd, hd4, hm4⟩ := addUpperInode_ok' (childReal pr n) true (s := s3) (by rw [hm3]; exact hm2q)
       rw [hadd]
-      exact finish s4 ⟨_, by rw [hd4, hd3], keepShape_hWrite (n :: pp) 0 fc _ _ hwr,
-        keepRoot_hWrite (n :: pp) 0 fc _ _ hwr⟩ (by rw [hm4, hm3])
-    | symlink t => rw [hstk] at nocontent; exact nocontent rfl
-    | other oid omode => rw [hstk] at nocontent; exact nocontent rfl
-    | whiteout => rw [hstk] at nocontent; exact nocontent rfl
-    | absent => rw [hstk] at nocontent; exact nocontent rfl
+      have hL3q : L3 (n :: pp) = .file s1.nextId fmode fc 0 := by
+        simp only [hWrite, Layer.set, if_true, hXf] at hwr
+        cases hwr
+        simp [Layer.updFile, Layer.set, pwrite]
+      exact finish s4 ⟨_, by rw [hd4, hd3], ⟨keepShape_hWrite (n :: pp) 0 fc _ _ hwr,
+        keepRoot_hWrite (n :: pp) 0 fc _ _ hwr⟩, fun _ => by rw [hL3q, hstk]; rfl⟩ (by rw [hm4, hm3])
+    | symlink t => rw [hstk] at nocontent hX; exact nocontent rfl (fun _ => by rw [← hX]; rfl)
+    | other oid omode => rw [hstk] at nocontent hX; exact nocontent rfl (fun _ => by rw [← hX]; rfl)
+    | whiteout =>
+      rw [hstk] at nocontent
+      exact nocontent rfl (fun hmw => by have := hwst hmw; rw [hstk] at this; cases this)
+    | absent => rw [hstk] at hpres; cases hpres
     | dir dm dop dx => rw [hstk] at hnd; cases hnd
 
 end Fbr.Ovl
